@@ -3,6 +3,7 @@ from __future__ import annotations
 
 import importlib
 import json
+import os
 import random
 import sys
 import time
@@ -33,18 +34,60 @@ def merge_stats(dst, src):
             merge_stats(dst.setdefault(k, {}), v)
 
 
+class StepBudgetExceeded(BaseException):
+    """Raised from the sys.monitoring callback once a case has entered more library functions than any terminating
+    execution of its size plausibly needs. A logical (not wall-clock) bound: non-termination is reported as a violation."""
+
+
+STEP_TOOL = 4
+_steps = {"n": 0, "limit": 0, "on": False}
+
+
+def _step_guard_install():
+    if _steps["on"] or os.environ.get("VERIF_NO_STEP_BUDGET"):
+        return
+    mon = sys.monitoring
+    try:
+        mon.use_tool_id(STEP_TOOL, "hxv-steps")
+    except ValueError:
+        return
+    root = os.path.join(boot.REPO, "hexital") + os.sep
+
+    def on_start(code, offset):
+        if not code.co_filename.startswith(root):
+            return mon.DISABLE
+        _steps["n"] += 1
+        if _steps["limit"] and _steps["n"] > _steps["limit"]:
+            _steps["limit"] = 0
+            raise StepBudgetExceeded()
+
+    mon.register_callback(STEP_TOOL, mon.events.PY_START, on_start)
+    mon.set_events(STEP_TOOL, mon.events.PY_START)
+    _steps["on"] = True
+
+
 def run_one(mod, case, agg, idx=None, keep=4):
     agg["evaluations"] += 1
     t0 = time.time()
+    _step_guard_install()
+    _steps["n"] = 0
+    _steps["limit"] = getattr(mod, "STEP_BUDGET", 20_000_000)
     try:
         with time_limit(getattr(mod, "CASE_TIMEOUT", 30)):
             res = mod.run_case(case)
+    except StepBudgetExceeded:
+        _steps["limit"] = 0
+        res = {"violations": [{"monitor": "step-budget", "sig": f"{mod.ID}|does-not-terminate-within-step-budget",
+                               "detail": f"the case entered more than {getattr(mod, 'STEP_BUDGET', 20_000_000)} library functions (a logical bound far above any terminating run of this size)"}],
+               "nontrivial": True, "stats": {"step_budget_exceeded": 1}}
     except CaseTimeout:
         agg["timeouts"].append({"idx": idx, "case": short(case, 400)})
         return None
     except Exception:
         agg["errors"].append({"idx": idx, "tb": traceback.format_exc()[-1500:], "case": short(case, 400)})
         return None
+    _steps["limit"] = 0
+    agg["stats"]["max:library_function_entries_per_case"] = max(agg["stats"].get("max:library_function_entries_per_case", 0), _steps["n"])
     dt = time.time() - t0
     agg["stats"]["max:case_wall_s"] = max(agg["stats"].get("max:case_wall_s", 0.0), round(dt, 3))
     agg["evaluations"] += max(0, res.get("units", 1) - 1)  # a case may be a block of several executions
@@ -86,6 +129,11 @@ def main(argv):
     prop, tier, seed, shard, nshards, out = argv[0], argv[1], int(argv[2]), int(argv[3]), int(argv[4]), argv[5]
     mod = load(prop)
     plan = mod.plan(tier)
+    try:  # a runaway allocation in the code under test must end as an exception in the case, not as an OOM kill of the sandbox
+        import resource
+        resource.setrlimit(resource.RLIMIT_AS, (6 << 30, 6 << 30))
+    except Exception:
+        pass
     agg = new_agg()
     total = plan["cases"]
     deadline = time.time() + plan.get("shard_budget_s", 1e9)
